@@ -1,7 +1,7 @@
-SPECIFICATION SpecRun
+SPECIFICATION Spec
 CONSTANTS
-  Alphabet <- WrapAlphabetT
-  MaxSteps = 4
+  Alphabet <- DevAlphabet
+  MaxSteps = 3
   AutoStart = FALSE
   Deviation = "none"
 VIEW View
